@@ -89,7 +89,7 @@ pub fn user_file_flavour(b: u8) -> Option<String> {
         8 => json!({}),
         9 => json!({"computer": "kompiutar", "help": "sahajZo"}),
         10 => json!({"ami": "ami", "tumi": "ami", "se": "ami"}),
-        _ => json!({"hothat": "hoThat`", "rri": "ri"}),
+        _ => json!({"hothat": "hoThat`", "rri": "ri", "a.": "o", "(k": "kotha", "ami,": "tumi"}),
     };
     Some(v.to_string())
 }
